@@ -130,7 +130,8 @@ const STRINGS: &[&str] = &[
 const NUMS: &[&str] = &["1", "0", "2", "10", "1.5", "0x10", "1e3"];
 const OTHER_LITS: &[&str] = &["null", "true", "false", "1n", "/re/g", "/a+b/", "undefined"];
 // no `name`: an anonymous function hoisted into a temporary is named after it (the property tolerates the injected names)
-const PROPS: &[&str] = &["p", "q", "k", "length", "nm", "prototype"];
+// two names end in a multi-byte character: an operand that ends there has its last byte inside a character
+const PROPS: &[&str] = &["p", "q", "k", "length", "nm", "prototype", "\u{e9}", "k\u{540d}"];
 const GLOBAL_VALS: &[&str] = &["g", "s", "o"];
 
 impl<'t, 'a> Gen<'t, 'a> {
